@@ -83,6 +83,7 @@ TypeOK == pc \in {"wait", "bcast", "ended", "post"} /\ closes \in 0..1 /\ ctx \i
 (* D1  MsgCloseBid is broadcast only because the timeout elapsed while the watchdog was still waiting, once, for the *)
 (*     watchdog's own bid (order of the lease, provider of the session)                                              *)
 CloseOnlyOnTimeout == /\ step.bcasts = (IF step.took = "timeout" THEN 1 ELSE 0) /\ closes <= 1 /\ step.argsok
+                      /\ step.took = "timeout" => fires /\ stopOffered = {}
 (* D2  a watchdog that was stopped before its timeout never broadcasts, and a timed-out one always has *)
 CloseIffTimedOut == (how = "stop" => closes = 0) /\ (how = "timeout" => closes = 1)
 (* D3  when run() is over the deployment is reported exactly once on the service's channel and stop() calls return *)
